@@ -2286,7 +2286,8 @@ def _copy_once(fn: ast.AST, pinned: Set[str]) -> bool:
             if guarded.get(id(st), True):
                 continue
             # (4) a new local y that ends its life being handed to x, with x unknown before: y was x all along
-            if y not in pinned and y not in args and x not in args and not any(n.id == y and i > i1 for n, i in names) \
+            if y not in pinned and y not in args and x not in args and stores.get(y) and all(i < i1 for i in stores[y]) \
+                    and not any(n.id == y and i > i1 for n, i in names) \
                     and not any(n.id == x and i < i1 for n, i in names) and sum(1 for n, i in names if n.id == y and i == i1) == 1:
                 for n, _i in names:
                     if n.id == y:
